@@ -1,7 +1,7 @@
 #!/bin/bash
-# usage: mut.sh <file> <sed-expr> <verify-regex>   (dev helper: apply a mutation to /repo, run vcheck verify, restore)
+# usage: mut.sh <file> <sed-expr> <verify-regex> [lines] [extra vcheck args]  (dev helper: apply a mutation to /repo, run vcheck verify, restore)
 cd /repo || exit 2
 sed -i "$2" "$1"
 git diff --stat | tail -1
-/verif/bin/vcheck verify "$3" | grep -v "^  ok" | head -${4:-12}
+/verif/bin/vcheck verify -timeout 5s $5 "$3" | grep -v "^  ok" | head -${4:-12} | cut -c1-220
 git checkout -- "$1"
